@@ -94,7 +94,20 @@ def make_tasks(n):
             ex.note('known', KNOWN_EMPTY)
         else:
             ex.check(bool(res) == want, 'tasks:successful-iff-everything-observed-succeeded')
+            _still_after_the_report(ex, res, want, 'tasks:successful-iff-everything-observed-succeeded')
     return harness
+
+
+def _still_after_the_report(ex, res, want, label):
+    """the summary is still successful exactly when everything succeeded once the report has shown it (the table representation
+    at full detail reads the recorded classification)"""
+    from valjean.javert.representation import Representation, FullTableRepresenter
+    from valjean.javert.verbosity import Verbosity
+    try:
+        Representation(FullTableRepresenter(), verbosity=Verbosity.FULL_DETAILS)(res)
+    except Exception as e:      # noqa -- a representer that crashes is C12's business
+        ex.note('representation-raised', type(e).__name__)
+    ex.check(bool(res) == want, label + '-also-after-the-report-has-shown-it')
 
 
 def make_tests(n, maxres):
@@ -138,6 +151,7 @@ def make_tests(n, maxres):
             ex.note('known', KNOWN_EMPTY)
         else:
             ex.check(bool(res) == want_v, 'tests:successful-iff-everything-observed-succeeded')
+            _still_after_the_report(ex, res, want_v, 'tests:successful-iff-everything-observed-succeeded')
     return harness
 
 
